@@ -375,7 +375,14 @@ func (y *LeafList) setParent(p Meta) {
 	y.parent = p
 }
 
-var anyType = newType("any")
+// shared by every anydata/anyxml definition, so it is complete from the start
+// and never written by the compiler
+var anyType = func() *Type {
+	t := newType("any")
+	t.format = val.FmtAny
+	t.delegate = t
+	return t
+}()
 
 type Any struct {
 	ident          string
